@@ -97,7 +97,14 @@ func mutate(rng *mrand.Rand, b []byte) []byte {
 func structural(rng *mrand.Rand, h *tlswire.ClientHello) *tlswire.ClientHello {
 	h = h.Clone()
 	for k := 1 + rng.IntN(3); k > 0; k-- {
-		switch rng.IntN(10) {
+		switch rng.IntN(11) {
+		case 10: // name a suite that the held config may list but the library does not implement (enc stays a usable share)
+			if i := h.Find(tlswire.ExtECH); i >= 0 {
+				if f, ok := tlswire.ParseECHOuter(h.Exts[i].Data); ok {
+					fs := foreignSuites[rng.IntN(len(foreignSuites))]
+					h.Exts[i] = tlswire.ECHOuter(fs[0], fs[1], f.ConfigID, f.Enc, f.Payload)
+				}
+			}
 		case 9: // keep config id and suite of the ECH offer (they match the held key) but make enc / payload degenerate
 			if i := h.Find(tlswire.ExtECH); i >= 0 {
 				if f, ok := tlswire.ParseECHOuter(h.Exts[i].Data); ok {
@@ -417,7 +424,42 @@ func gen(rng *mrand.Rand, i int, keys []echgen.KeyPair) input {
 	}
 	in.client = append(in.client, follow()...)
 	in.backend = follow()
+	// a third of the key sets: the held config also lists suites this library does not implement (other tools
+	// generate such configs); a hello may name any of them
+	if len(in.keys) > 0 && rng.IntN(3) == 0 {
+		for ki := range in.keys {
+			in.keys[ki].Config = withForeignSuites(in.keys[ki].Config)
+		}
+	}
 	return in
+}
+
+var foreignSuites = [][2]uint16{{2, 2}, {3, 1}, {1, 0xffff}, {0x7777, 3}, {2, 0xffff}, {0, 0}}
+
+// withForeignSuites re-encodes an ECHConfig with foreignSuites appended to its cipher_suites vector.
+func withForeignSuites(cfg []byte) []byte {
+	// version(2) length(2) | id(1) kem(2) pk<2> suites<2> maxlen(1) name<1> ext<2>
+	if len(cfg) < 9 {
+		return cfg
+	}
+	pkLen := int(cfg[7])<<8 | int(cfg[8])
+	so := 9 + pkLen
+	if len(cfg) < so+2 {
+		return cfg
+	}
+	sl := int(cfg[so])<<8 | int(cfg[so+1])
+	var extra []byte
+	for _, fs := range foreignSuites {
+		extra = append(extra, byte(fs[0]>>8), byte(fs[0]), byte(fs[1]>>8), byte(fs[1]))
+	}
+	out := append([]byte{}, cfg[:so]...)
+	out = append(out, byte((sl+len(extra))>>8), byte(sl+len(extra)))
+	out = append(out, cfg[so+2:so+2+sl]...)
+	out = append(out, extra...)
+	out = append(out, cfg[so+2+sl:]...)
+	body := len(out) - 4
+	out[2], out[3] = byte(body>>8), byte(body)
+	return out
 }
 
 // drive runs one input through NewConn / Read / Write and applies the oracle.
